@@ -17,6 +17,7 @@ build ended while a discovered dependency of an already finished task was still 
 brought up to date (known finding F22, see known_findings.json).
 -/
 import LLBuild.Lemmas.Engine.Run
+import LLBuild.Lemmas.Engine.Fingerprint
 import LLBuild.Model.EngineDSL
 
 namespace LLBuild.Engine
@@ -87,12 +88,6 @@ theorem C01_up_to_date_is_clean {P : Program} (hP : P.WF) {evs : List Event} {s 
 /-! ### The DSL programs of the correspondence harness satisfy `WF` when `DSL.wf` says so -/
 
 namespace DSL
-
-/-- input rules issue nothing and discovered dependencies point at input rules -/
-def wf (rules : List RuleSpec) : Bool :=
-  rules.all fun s =>
-    (s.kind != 0 || (s.statics.isEmpty && s.whens.isEmpty && s.discs.isEmpty)) &&
-    s.discs.all (fun d => (specOf rules d.2).kind == 0)
 
 theorem specOf_key (rules : List RuleSpec) (k : Key) : (specOf rules k).key = k := by
   unfold specOf
